@@ -13,10 +13,10 @@ import (
 func init() {
 	register(&PropRules{
 		ID:      "C01",
-		Explain: "Password verdict tracks the last acknowledged write — structural part: (C01.1) password identity: from every exported store entry point (Dir.AddUser/UpdateUser/Init/Authenticate, UserHash.Add/Update/Authenticate) to the password operand of each KDF call (argon2.IDKey in Generate and Check; scryptauth Gen/Check and, inside the dependency, scrypt.Key) the value is the parameter itself up to string→[]byte — no slicing, trimming, folding, and the temporary []byte copy is not written (e.g. cleared) before the callee reads it; (C01.2–C01.4) the verdict can be true only through parameter-set lookup, algorithm match and a constant-time comparison of the whole KDF output with the whole stored digest (shared with C02.1); (C01.5) file-name agreement: every user-file path is Join(BaseDir,user)+{.admin|.user}; getFilename's extension is decided by its flag; Exists consults .admin first and reports admin only for it, then .user; Remove unlinks both extensions of the same stem; SetAdmin renames between exactly these two in the direction of its argument; fileExists reports 'absent' only on IsNotExist; (C01.6) the reported admin flag and last-change are those of the record that was checked, and List reports the entry's own extension flag and time.",
+		Explain: "Password verdict tracks the last acknowledged write — structural part: (C01.1) password identity: from every exported store entry point (Dir.AddUser/UpdateUser/Init/Authenticate, UserHash.Add/Update/Authenticate) to the password operand of each KDF call (argon2.IDKey in Generate and Check; scryptauth Gen/Check and, inside the dependency, scrypt.Key) the value is the parameter itself up to string→[]byte — no slicing, trimming, folding, and the temporary []byte copy is not written (e.g. cleared) before the callee reads it; (C01.2–C01.4) the verdict can be true only through parameter-set lookup, algorithm match and a constant-time comparison of the whole KDF output with the whole stored digest (shared with C02.1); (C01.5) file-name agreement: every user-file path is Join(BaseDir,user)+{.admin|.user}; getFilename's extension is decided by its flag; Exists consults .admin first and reports admin only for it, then .user; Remove unlinks both extensions of the same stem; SetAdmin renames between exactly these two in the direction of its argument; fileExists reports 'absent' only on IsNotExist; (C01.6) the reported admin flag and last-change are those of the record that was checked, and List reports the entry's own extension flag and time. Seed round 5: (C01.8) the converse of C01.2 — on every path of UserHash.Authenticate the verdict is the first result of the parameter-set's Hasher.Check for this call, or the error result is known non-nil; a refusal with a nil error that was not computed from the password makes a successfully written password unusable.",
 		Undec:   []string{"correctness of scrypt / argon2id / HMAC (trusted)", "closure of the verdict under arbitrary operation histories and file-system behaviour", "the PBKDF2 key-equivalence classes named in the property"},
 		Run:     runC01,
-		Floors:  map[string]int{"C01.1": 10, "C01.2": 4, "C01.5": 5},
+		Floors:  map[string]int{"C01.1": 10, "C01.2": 4, "C01.5": 5, "C01.8": 1},
 	})
 }
 
@@ -133,6 +133,7 @@ func runC01(c *an.Ctx, p *an.Prog, thorough bool) {
 		}
 	}
 	c015(c, p)
+	c018(c, p)
 	// C01.7: the verdict must track the last *acknowledged* write: a write that reports failure must not have
 	// replaced the record (shared with C15.6)
 	{
@@ -327,4 +328,39 @@ func c015(c *an.Ctx, p *an.Prog) {
 			}
 		}
 	}
+}
+
+// c018 — the converse of C01.2 ("true only as the hasher's verdict"): C01 says a login succeeds *exactly* when the password
+// is the one last written, so a refusal must come from the hasher too. On every path of UserHash.Authenticate the verdict
+// is the first result of the parameter-set's Hasher.Check for this call, or the error result is known non-nil (the record
+// could not be found, read or interpreted). A refusal with a nil error that was not computed from the password (an early
+// "cannot be valid" return) makes a successfully written password unusable.
+// Not decided here: that each hasher's Check refuses only on a digest mismatch (value level; its accepting side is C02.1).
+func c018(c *an.Ctx, p *an.Prog) {
+	fn := p.Method("/store", "UserHash", "Authenticate")
+	if !need(c, "C01.8", fn, "store.(*UserHash).Authenticate") {
+		return
+	}
+	var bad []string
+	n, nCheck := 0, 0
+	er := an.EnumPaths(fn, nil, nil, func(s *an.PathState) {
+		ret := lastReturn(s)
+		if ret == nil || len(ret.Args) < 2 {
+			return
+		}
+		n++
+		v, e := ret.Args[0], ret.Args[len(ret.Args)-1]
+		if ck, i := v.CallOf(); ck != nil && i == 0 && strings.HasSuffix(ck.Aux, storePkg+".Hasher.Check") {
+			nCheck++
+			return
+		}
+		if s.NonNil(e) {
+			return
+		}
+		bad = append(bad, "verdict "+v.K+" is returned without an error (error result "+e.K+" not known non-nil) and is not Hasher.Check's result (path "+s.BlockPath()+")")
+	})
+	if !er.Complete {
+		bad = append(bad, "path limit")
+	}
+	c.Check(len(bad) == 0 && n > 0 && nCheck > 0, "C01.8", fnKey(fn)+"|refusal-provenance", p.Pos(fn.Pos()), fmt.Sprintf("%d paths: the verdict is Hasher.Check's first result, or an error is reported", n), strings.Join(uniqS(bad), "; "))
 }
